@@ -23,6 +23,16 @@ def many_diags():
     return out
 
 
+CALLEE = [
+    "polly wants a cracker\ngive a cracker back\n\nshout polly taking polly\n",
+    "polly wants a cracker\ngive a cracker back\n\npolly taking 7\nshout polly\n",
+    "polly wants a cracker\ngive a cracker back\n\nshout polly taking 1, polly\nshout polly\n",
+    "polly wants x\ngive x back\n\nput polly taking polly taking 1 into polly\nsay polly\n",
+    "polly wants x\ngive x back\n\nshout x\nshout polly taking x\nshout x\n",
+    "polly wants x\ngive x back\n\nshout polly taking 1\nshout polly taking 2\n",
+]
+
+
 def run(chk):
     proved = setup(chk, "C19")
     rng = rng_for(chk, 19)
@@ -31,7 +41,7 @@ def run(chk):
     ill, _ = gen_prog.gen_programs(rng.randrange(10 ** 9), 150 if quick else 2000, illtyped=True)
     for k, v in stats.items():
         chk.count("gen:" + k, v)
-    progs = FIXED + many_diags() + gen + ill
+    progs = FIXED + CALLEE + many_diags() + gen + ill
     lines = [f"(ana l{i} lint {C.hx(p)})" for i, p in enumerate(progs)]
     res, _ = suite.compare(chk, lines, "lint", project=lambda x: x, suite_name="LINT", crash_is_violation=True)
     bad = 0
